@@ -20,9 +20,12 @@ claim("C08", "proof",
       "reference ASCON permutation for all 2^320 states and all start rounds 0..12 by CBMC function + loop contracts "
       "(round lemma for an arbitrary iteration, then the loop contract composes the rounds and the function contract is "
       "enforced with its frame); the state byte operations are enforced against whole-view contracts over the 40 "
-      "canonical bytes for every (offset,size) that fits. All inputs are symbolic, so this is a proof, not a sample.",
-      "Not covered: the x86-64 assembly permutation (default backend on this host; not C, no lifter built) and every "
-      "other assembly backend; byte operations of the 32-bit sliced and generic backends are in the thorough tier only "
+      "canonical bytes for every (offset,size) that fits. The x86-64 ASSEMBLY permutation (the default backend on this "
+      "host) is lifted to C instruction by instruction on every run (tools/lift_x86_64.py) and the same contract is "
+      "enforced on it with cut points at the round labels: every round == ref_round, jump-table dispatch enters at "
+      "first_round, callee-saved registers restored, only *state written. All inputs are symbolic: a proof, not a sample.",
+      "Trusted for the assembly: the lifter's instruction table and the calling convention (stated in the lifter and in "
+      "the evidence). Not covered: the other eleven assembly backends; byte operations of the 32-bit sliced and generic backends are in the thorough tier only "
       "where they complete. Trusted: CBMC/CaDiCaL, the reference transcription in spec/spec_perm.h (cross-checked "
       "against the KAT vectors natively).",
       "CBMC code contracts (DFCC): enforced function contracts + loop contracts, SAT back end", "4/C08")
@@ -35,7 +38,8 @@ claim("C01", "proof",
       "every key, nonce, AD, message and every length below 2^40 with the permutation abstract.",
       "Meta-steps outside the solver: length generalisation of the write-loop step proofs (CBMC 6.11 loop contracts cannot "
       "abstract loops that store through a moving pointer) and the instantiation of the L1 summary functions. Not "
-      "covered: C++ entry points, assembly permutation (assumed to satisfy the C08 contract); masked entry points are C10.",
+      "covered: C++ entry points. The masked one-shot encrypt entry points are checked against the same reference at "
+      "enumerated constant lengths around the block boundaries with the masked permutation replaced by its C10 contract.",
       "CBMC code contracts (DFCC): enforced function contracts, loop contracts, callee contracts in replaced form, uninterpreted permutation", "4/C01")
 claim("C02", "proof",
       "ascon_aead_check_tag is proved exact for all 2^256 tag pairs (0 iff equal, else -1); the duplex decrypt loops by "
@@ -44,7 +48,7 @@ claim("C02", "proof",
       "= exact comparison of the supplied tag with the specified tag over the whole plaintext buffer; inverse-step lemma.",
       "'Any change is rejected' is proved as 'accept iff the supplied tag equals the specified tag of the supplied inputs' "
       "(a 128-bit collision is outside what code contracts can exclude). The plaintext wipe loop is bounded (labelled). "
-      "SIV/ISAP decryption: C06; masked: C10; C++ not covered.",
+      "SIV/ISAP decryption: C06; masked one-shot decrypt: enumerated constant lengths (see C10); C++ not covered.",
       "CBMC code contracts (DFCC): enforced function contracts, callee contracts in replaced form, ghost call log", "4/C02")
 claim("C14", "proof",
       "ascon_aead_increment_nonce is proved to be +1 mod 2^128 on the big-endian integer for all 2^128 nonces (every carry "
@@ -88,23 +92,30 @@ claim("C10", "proof",
       "functions, all masked-state conversions and the three masked permutations are proved to compute the specified "
       "function of the UNMASKED value for every value returned by the random source (a stub returning an arbitrary word "
       "per call) and every share pattern; 'every share changes on re-randomisation' is checked by requiring each "
-      "'share k unchanged for all tapes' obligation to be refuted (this found and led to the repair of defect D1).",
-      "Not covered: x86-64 masked assembly (default on this host), 32-bit and direct-xor masked word backends, the masked "
-      "AEAD entry points. The x4 round lemma runs in the thorough tier only.",
+      "'share k unchanged for all tapes' obligation to be refuted (this found and led to the repair of defect D1). The "
+      "x86-64 ASSEMBLY masked backend that the default build runs (word toolkit, 35 functions; x2/x3/x4 permutations) is "
+      "lifted to C on every run and put through the same obligations (permutations: one round lemma per round from an "
+      "arbitrary re-sharing). The masked one-shot AEAD entry points equal the unmasked specification for every random "
+      "tape at enumerated lengths, on both word backends.",
+      "Not covered: 32-bit and direct-xor masked word backends; masked AEAD only at enumerated constant lengths around the "
+      "block boundaries; assembly only for the MAX_SHARES == 4 layout; lifter instruction table trusted. Quick tier samples "
+      "the x3/x4 assembly rounds by seed; the thorough tier runs all.",
       "CBMC: full-domain assertions on loop-free code, loop contracts + enforced function contracts for the masked permutations, must-refute obligations", "4/C10")
 claim("C13", "proof",
       "Every C free/clear function is enforced from an arbitrary object against 'every named field is zero afterwards' "
       "with the frame 'only this object' (25 functions: permutation state, incremental AEAD, XOF/hash, PRF, HMAC, KMAC, "
       "KDF, HKDF, PRNG, ISAP keys, masked keys and states).",
       "Source-level only: whether the optimiser keeps the wipe, and libc's explicit_bzero/memset_s, are trusted; the "
-      "portable fallback loop of ascon_clean is what is inlined. C++ destructors and stack temporaries of one-shot "
-      "functions are not covered.",
+      "portable fallback loop of ascon_clean is what is inlined. Stack temporaries: followed by ghost wrappers for "
+      "ascon_pbkdf2 (every XOF state freed on every path, U/T wiped) and the HKDF one-shots (state wiped with ascon_clean, "
+      "not memset); other one-shots and C++ destructors are not covered.",
       "CBMC code contracts (DFCC): enforced function contracts with a universally chosen ghost byte index", "4/C13")
 claim("C16", "other",
       "No hidden mutable global state: the goto symbol table of every library translation unit is scanned for "
       "static-lifetime non-const objects defined under /repo/src (must be none), and representative public entry points "
-      "are re-verified with assigns clauses that name only argument-reachable objects; race freedom for distinct objects "
-      "then follows by argument (disjoint write sets, nothing shared is written).",
+      "are re-verified with assigns clauses that name only argument-reachable objects; the masked ciphers are checked to "
+      "leave the caller's const masked key object bit-for-bit unchanged; race freedom for distinct objects then follows "
+      "by argument (disjoint write sets, nothing shared is written).",
       "CBMC has no thread semantics for this: the interleaving conclusion is an inference, hence level 'other'. A write "
       "to a shared const object through a cast is only caught where the function is under a contract with a frame.",
       "goto symbol-table scan + DFCC assigns-clause (frame) checking", "4/C16")
@@ -134,6 +145,20 @@ claim("C19", "proof",
       "asconcrypt.c with BUFSIZ 48, asconsum.c with BUFSIZ 16 and 1-2 checksum lines up to 82 characters (labelled bounded).",
       "CBMC code contracts (DFCC) on fileops.c; loop contracts in asconcrypt.c; plain assertions over the real asconsum.c with stdio stubs", "4/C19")
 
+claim("C18", "other",
+      "x86-64 part by contract, the rest by static facts. The four x86-64 assembly files (core permutation, masked x2/x3/x4 "
+      "permutations, masked-word toolkit: what the default build and the test suite run) are lifted to C instruction by "
+      "instruction on every run and proved: permutation == specification for all states and start rounds with its frame; "
+      "masked permutations round by round on the unmasked state; word functions as the C toolkit; callee-saved registers "
+      "restored, stack balanced, no access outside the argument objects. Static facts from the working tree on every run: all "
+      "18 .S files are byte-for-byte their generators' output; no x86-64 object (assembled with the repository's assembler "
+      "options) lacks a non-executable .note.GNU-stack, and the other files either carry the directive or the build passes "
+      "--noexecstack. The latter found that libascon.so was linked with an executable stack (repaired).",
+      "The twelve non-x86-64 backends are NOT verified against the specification or their ABIs (no lifter, no cross tools): for "
+      "them only generator equality and the executable-stack text fact are checked. Lifter instruction table and calling "
+      "convention trusted. Level 'other': the static facts are not proofs and the contract part covers 6 of 18 files.",
+      "CBMC contracts on mechanically lifted assembly + generator rebuild/diff + readelf on assembled objects", "4/C18")
+
 claim("C15", "proof",
       "The real PRNG functions are executed symbolically from an arbitrary generator state with a stubbed system source "
       "(arbitrary bytes and health status), stubbed storage callbacks and specification stubs for the sponge: every "
@@ -159,7 +184,7 @@ claim("C09", "proof",
       "permutation under each C backend, the pre-computed initial values in each of the three state encodings against "
       "p^12 of the specified IV block, the masked-word toolkit and masked keys for every share count, and the "
       "acquire/release balance of the incremental sponge functions in the checker build (abort unreachable).",
-      "Assembly backends are not re-proved; higher-level compositions are proved in the 64-bit C configuration only; "
+      "The x86-64 assembly permutation is re-proved through the lifter; other assembly backends are not; higher-level compositions are proved in the 64-bit C configuration only; "
       "acquire/release entry states are sampled and use a frame-only permutation stub.",
       "CBMC code contracts (DFCC) and full-domain assertions, repeated per build configuration", "4/C09")
 claim("C12", "proof",
@@ -172,17 +197,22 @@ claim("C12", "proof",
       "CBMC safety checks inside DFCC-enforced contracts (assigns clauses as frames) with exact-size is_fresh/malloc buffers", "4/C12")
 
 claim("C06", "proof",
-      "Only the key-persistence part of the property is claimed: for the three ISAP variants save_key is enforced against "
-      "'output == canon(ke) || canon(ka), key object not written', load_key against 'canonical key states == the 80 input "
-      "bytes', free against 'both states zero'; a saved-and-loaded key therefore has the same canonical states as the original.",
-      "NOT claimed: that the SIV modes compute the documented two-pass construction, that ISAP encrypt/decrypt/MAC compute "
-      "ISAP v2.0, and that encrypt/decrypt never modify the const key (no contracts were built for them in the time available).",
-      "CBMC code contracts (DFCC): enforced function contracts with frames", "4/C06")
+      "SIV: the three ASCON-SIV encrypt/decrypt entry points (real code incl. absorb loops and byte operations) equal the "
+      "two-pass construction documented in doc/siv.dox over the abstract permutation for every key, nonce, AD and message "
+      "content, at enumerated constant lengths around the block boundaries. ISAP: init + encrypt/decrypt of ISAP-A-128A, "
+      "ISAP-A-128 and ISAP-A-80PQ equal the ISAP v2.0 algorithms (bit-serial re-keying, ENC, MAC) for ANY permutation "
+      "(logged-oracle argument: the k-th permutation call of the code has the argument of the k-th call of the reference), "
+      "same length enumeration; the pre-computed key is bit-for-bit unchanged by encrypt/decrypt. Key persistence: save_key / "
+      "load_key / free under enforced DFCC contracts with frames (saved-and-loaded key has the same canonical states).",
+      "Lengths are enumerated constants (0, partial, exact, block+partial, several blocks), not 'every length'; the "
+      "generalisation is a meta-step (a helper whose length parameter is narrower than size_t, wrong only from 4 GiB on, is "
+      "not detected). The SIV prose/diagram ambiguity of siv.dox is resolved in favour of the diagram (see DESIGN). The ISAP "
+      "reference is a transcription, cross-checked through the code that passes the official KATs.",
+      "CBMC: plain-assertion groups over the real code with abstract / logged-oracle permutation; DFCC enforced contracts for key save/load/free", "4/C06")
 
 NA_DEFAULT = {
     "C11": "secret-independence of control flow and addresses is a relational (2-safety) property of the shipped object code; a CBMC contract describes one execution of the C source and has no taint or relational mode (DESIGN section 6)",
     "C17": "compilability of C++ members is a compiler verdict, and CBMC's C++ front end rejects this repository's C++ (DESIGN 2.8, section 6)",
-    "C18": "eleven of twelve assembly targets are not C and 'byte-for-byte what the generator emits' / ELF flags are not proof obligations of a program verifier (DESIGN section 6)",
 }
 
 
